@@ -606,6 +606,102 @@ def _views_disagree(bl, ref):
     return out[:4]
 
 
+# ---- views are values: no aliasing between a handed-out object and the list ------------------------------------------
+def _graph_edges(g):
+    return sorted((min(int(a), int(b)), max(int(a), int(b)), int(d["bond_type"])) for a, b, d in g.edges(data=True))
+
+
+def _grab_views(bl):
+    """view name -> (returned object, frozen snapshot) for every view that returns an array or a container.
+    Only called on a list that just passed `_views_disagree` (canonical, cached maximum large enough)."""
+    out = {}
+    a = bl.as_array()
+    out["as_array"] = (a, a.copy())
+    s = bl.as_set()
+    out["as_set"] = (s, frozenset(s))
+    for name, fn in (("get_all_bonds", bl.get_all_bonds), ("adjacency_matrix", bl.adjacency_matrix),
+                     ("bond_type_matrix", bl.bond_type_matrix)):
+        r = fn()
+        out[name] = (r, tuple(x.copy() for x in r) if isinstance(r, tuple) else r.copy())
+    g = bl.as_graph()
+    out["as_graph"] = (g, _graph_edges(g))
+    if int(bl.get_atom_count()) > 0:
+        r = bl.get_bonds(0)
+        out["get_bonds"] = (r, tuple(x.copy() for x in r))
+        r = bl[-1]
+        out["getitem_int"] = (r, tuple(x.copy() for x in r))
+    return out
+
+
+def _same(obj, snap):
+    import numpy as np
+    if isinstance(obj, tuple):
+        return len(obj) == len(snap) and all(_same(o, s) for o, s in zip(obj, snap))
+    if isinstance(obj, np.ndarray):
+        return obj.shape == snap.shape and obj.dtype == snap.dtype and bool(np.array_equal(obj, snap))
+    if isinstance(obj, (set, frozenset)):
+        return obj == snap
+    return _graph_edges(obj) == snap
+
+
+def _scribble(obj):
+    """Overwrite a returned object in place wherever it is writable (what a caller is free to do with a value)."""
+    import numpy as np
+    if isinstance(obj, tuple):
+        for o in obj:
+            _scribble(o)
+    elif isinstance(obj, np.ndarray):
+        if obj.size and obj.flags.writeable:
+            obj[...] = 77 if obj.dtype != bool else ~obj
+    elif isinstance(obj, set):
+        obj.clear()
+        obj.add((98, 99, 9))
+    else:
+        from biotite.structure.bonds import BondType
+        for _a, _b, d in obj.edges(data=True):
+            d["bond_type"] = BondType.QUADRUPLE
+        obj.add_edge(98, 99, bond_type=BondType.TRIPLE)
+
+
+def _alias_problems(st, refs, held, opname, hist):
+    """(i) objects handed out before this op still equal their snapshots; (ii) editing freshly returned objects leaves
+    the list as it was.  Returns [(key, message)]."""
+    for v, (o, snap) in held.items():
+        if not _same(o, snap):
+            return [(f"C02/{v}/returned-object-changed-by-later-{opname}",
+                     f"after {hist}: the object returned by {v} before `{hist[-1]}` changed retroactively (it aliases the list)")]
+    line = _state_line(st.cur)
+    for v, (o, _snap) in _grab_views(st.cur).items():
+        _scribble(o)
+        now = _state_line(st.cur)
+        if now != line:
+            return [(f"C02/{v}/edit-of-returned-object-changes-list",
+                     f"after {hist}: overwriting the object returned by {v} changed the list from `{line}` to `{now}`")]
+    if _views_disagree(st.cur, refs["cur"]):
+        return [("C02/views/edit-of-returned-object-changes-list", f"after {hist}: a view differs from the mapping after returned objects were overwritten")]
+    return []
+
+
+def _ctor_alias_problems(n, rows, width):
+    """The array passed to BondList(...) is neither modified nor kept: pass it, compare, overwrite it, compare the list."""
+    import numpy as np
+    from biotite.structure.bonds import BondList
+    dtypes = [np.int64] + ([np.uint32] if all(x >= 0 for r in rows for x in r) else [])
+    for dt in dtypes:
+        arr = np.array(rows, dtype=dt).reshape(-1, width)
+        keep = arr.copy()
+        bl = BondList(n, arr)
+        if not np.array_equal(arr, keep):
+            return [("C02/new/input-array-modified", f"BondList({n}, {keep.tolist()}) ({np.dtype(dt).name}) changed its argument to {arr.tolist()}")]
+        line = _state_line(bl)
+        if arr.size:
+            arr[...] = 0
+        if _state_line(bl) != line:
+            return [("C02/new/input-array-aliased", f"BondList({n}, {keep.tolist()}) ({np.dtype(dt).name}) keeps its argument: overwriting it changed the list from `{line}` to `{_state_line(bl)}`")]
+    return []
+
+
+
 def _index_class(n, i):
     if i < INT32[0] or i > INT32[1]:
         return "outside-int32"
@@ -742,6 +838,7 @@ def _oracle_inner(case):
     st = _St()
     refs = {"cur": Ref(0), "aux": Ref(0)}
     viol = []
+    held = {}
     lines = list(case.get("ops") or []) + list(case.get("probes") or [])
     n_ops = len(case.get("ops") or [])
     for k, line in enumerate(lines):
@@ -797,6 +894,15 @@ def _oracle_inner(case):
             v, msg = bad[0]
             viol.append((f"C02/{OPNAME.get(w[0], w[0])}/view-{v}", f"after {lines[:k + 1]}: {v}: {msg}"))
             break
+        # views are values: nothing handed out earlier changed, editing what is handed out now changes nothing
+        ap = _alias_problems(st, refs, held, OPNAME.get(w[0], w[0]), lines[:k + 1])
+        if not ap and w[0] in ("new", "aux", "new2"):
+            width = 2 if w[0] == "new2" else 3
+            ap = _ctor_alias_problems(int(w[1]), _parse_rows(w[2], width), width)
+        if ap:
+            viol += ap
+            break
+        held = _grab_views(st.cur)
     # one key per case
     seen, out = set(), []
     for key, msg in viol:
